@@ -514,7 +514,9 @@ pub fn check(spec: &PropSpec, a: &CheckArgs) -> i32 {
         let path = format!("{}/{}-{}-{}.json", replay_dir, spec.id, a.seed, sig_hash(sig));
         let supervision = sig.contains("/supervision/");
         let mut shrunk = false;
-        if !supervision {
+        // minimise at most 4 signatures per check (each costs up to two minutes); the others
+        // get a replay file that regenerates the run from its seed
+        if !supervision && n_viol <= 4 {
             let exe = std::env::current_exe().unwrap();
             let mut cmd = Command::new(exe);
             cmd.arg("shrink")
